@@ -48,6 +48,31 @@ def ref_atom(model, atom, tree):
     return sum(1 for x in tags if atom in [s.casefold() for s in x.node.terms()])
 
 
+def tree_groups(tree):
+    for it in tree:
+        if not isinstance(it, Leaf):
+            yield it
+            yield from tree_groups(it)
+
+
+def ref_exact_optional(model, a, b, tree):
+    """'{a: b}' for atomic a, b: some group holds a tag matching a, optionally a tag matching b, and nothing else (no other
+    tag, no group).  Judged only where no group has two tags matching the same atom or one tag matching both (None
+    otherwise: which of several candidate tags is 'the' match is not documented)."""
+    res = False
+    for G in tree_groups(tree):
+        tags = [c for c in G if isinstance(c, Leaf)]
+        ma = [t for t in tags if ref_atom(model, a, [t])]
+        mb = [t for t in tags if ref_atom(model, b, [t])]
+        if len(ma) > 1 or len(mb) > 1 or (ma and mb and ma[0] is mb[0]):
+            return None
+        if len(tags) != len(G):
+            continue
+        if len(ma) == 1 and all(t is ma[0] or (mb and t is mb[0]) for t in tags):
+            res = True
+    return res
+
+
 def unary(q):
     out = [f"({q})", f"[{q}]", f"{{{q}}}", f"{{{q}:}}"]
     if "?" not in q:
@@ -181,6 +206,17 @@ def worker_laws(rec, shard, nshards, bounds, qdepth, seed):
                     rec.violation("C15:and-does-not-distribute-over-or", annotation=text, a=a_, b=b_, c=c_, lhs=lhs, rhs=rhs)
                 if S(f"({b_} || {a_}) && {c_}") != lhs:
                     rec.violation("C15:or-operand-order-changes-conjunction", annotation=text, a=a_, b=b_, c=c_)
+        # '{A: B}' = a group holding A, optionally B and nothing else: then it holds exactly A, or exactly A and B
+        for a_, b_ in itertools.product([x for x in ATOMS if "?" not in x], repeat=2):
+            rec.n("evaluations")
+            rec.n("distinct_nontrivial")
+            got = S(f"{{{a_}: {b_}}}")
+            if got and not S(f"{{{a_}}} || {{{a_} && {b_}}}"):
+                rec.violation("C15:exact-with-optional-matches-a-group-holding-something-else", annotation=text, a=a_, b=b_)
+            want = ref_exact_optional(model, a_, b_, tree)
+            if want is not None and got != want:
+                rec.violation("C15:exact-with-optional-differs-from-reference", annotation=text, query=f"{{{a_}: {b_}}}",
+                              expected=want, got=got)
         # all of q2 once (for the permutation-invariance table) + repeatability + purity
         row = tuple(S(q) for q in q2)
         key = hedgen.canon(tree)
@@ -304,6 +340,33 @@ def service_check(ctx):
         rec.n("evaluations", len(objs))
         if [int(x) for x in col] != want:
             rec.violation("C15:service:differs-from-handler", query=q)
+    # rows without annotation (None / empty) anywhere in the list count as 'no match' and do not disturb their neighbours
+    base = {names[qi]: [int(x) for x in df[names[qi]]] for qi in range(len(queries))}
+    for gap in (None, env.HedString("", env.schema)):
+        for every in (1, 2, 3):
+            mixed, origin = [], []
+            for k, o in enumerate(objs):
+                mixed.append(o)
+                origin.append(k)
+                if k % every == 0:
+                    mixed.append(gap)
+                    origin.append(None)
+            for lst, org in ((mixed, origin), ([gap] + mixed, [None] + origin)):
+                try:
+                    dfm = query_service.search_hed_objs(lst, handlers, names)
+                except Exception as e:
+                    rec.violation("C15:service:search_hed_objs-raises-with-unannotated-rows:" + type(e).__name__,
+                                  error=repr(e)[:200])
+                    continue
+                rec.n("evaluations", len(lst))
+                rec.n("distinct_nontrivial", len(lst))
+                for qi, q in enumerate(queries):
+                    col = [int(x) for x in dfm[names[qi]]]
+                    want = [0 if k is None else base[names[qi]][k] for k in org]
+                    if col != want:
+                        first = next(i for i, (x, y) in enumerate(zip(col, want)) if x != y)
+                        rec.violation("C15:service:unannotated-row-changes-factors", query=q, position=first,
+                                      row_is_gap=org[first] is None, got=col[first], expected=want[first])
     _, _, issues = query_service.get_query_handlers(["(red", "blue"], None)
     if not issues:
         rec.violation("C15:service:bad-query-not-reported", query="(red")
